@@ -692,6 +692,21 @@ def check_predicate(vu, case, sub):
         raise Violation(sub, 'VersionPredicate(%r).satisfied_by(%r) -> %r, '
                         'expected %r' % (case['pred_s'], case['cand_s'], got,
                                          want), case)
+    # instance isolation / repeatability: other predicates are built and
+    # used in between, then the same object is asked again
+    try:
+        for other in ('>=999.0', '<0.0.1,!=0', '==%s' % case['cand_s']):
+            vu.VersionPredicate(other).satisfied_by(case['cand_s'])
+        again = pred.satisfied_by(case['cand_s'])
+    except Exception as e:
+        raise Violation(sub, 'VersionPredicate(%r): second satisfied_by(%r) '
+                        'raised %s: %s' % (case['pred_s'], case['cand_s'],
+                                           type(e).__name__, e), case)
+    if again is not want:
+        raise Violation(sub, 'VersionPredicate(%r).satisfied_by(%r) -> %r '
+                        'when asked again after other predicates were used, '
+                        'expected %r' % (case['pred_s'], case['cand_s'],
+                                         again, want), case)
     return want
 
 
